@@ -1169,6 +1169,8 @@ func main() {
 		}
 	}
 
+	// Same method name in two classes: two distinct cases of one file, aggregated the way doFlakeRun aggregates a run.
+	_ = sameNameDifferentClass(r)
 	r.Assume = []string{
 		"a real runner exits non-zero exactly when a case failed or errored (or it crashed); only such consistent (results, exit status) pairs are fed to parseTestOutput/doFlakeRun",
 		"JUnit flaky-retry outcomes follow Maven surefire (flakyFailure/flakyError = finally passed, rerunFailure/rerunError = never passed), which docs/tests.html names as the compatibility target; a flaky pass is counted under 'flakes', not under 'passed', as the summary line does",
@@ -1186,4 +1188,48 @@ func main() {
 		Exhaustive:         !r.Capped,
 		Extra:              map[string]any{"flake_scenarios": flakeEvals, "ambiguous_flake_scenarios": ambiguous},
 	})
+}
+
+// sameNameDifferentClass enumerates files with two cases that share the method name but differ in classname, over all
+// outcome pairs and both suite layouts; the parsed cases are aggregated with TestSuite.Add (as doFlakeRun does for each
+// attempt) and the counts / verdict must be those of two separate cases.
+func sameNameDifferentClass(r *lib.Run) int {
+	bodies := map[string]string{"pass": "", "fail": `<failure message="m" type="T">trace</failure>`, "error": `<error message="m" type="T">trace</error>`, "skip": `<skipped message="m"/>`}
+	outcomes := []string{"pass", "fail", "error", "skip"}
+	n := 0
+	for _, o1 := range outcomes {
+		for _, o2 := range outcomes {
+			for _, layout := range []string{"one-suite", "two-suites"} {
+				c1 := fmt.Sprintf(`<testcase name="m" classname="A" time="0.1">%s</testcase>`, bodies[o1])
+				c2 := fmt.Sprintf(`<testcase name="m" classname="B" time="0.1">%s</testcase>`, bodies[o2])
+				doc := `<?xml version="1.0"?><testsuites><testsuite name="s">` + c1 + c2 + `</testsuite></testsuites>`
+				if layout == "two-suites" {
+					doc = `<?xml version="1.0"?><testsuites><testsuite name="s1">` + c1 + `</testsuite><testsuite name="s2">` + c2 + `</testsuite></testsuites>`
+				}
+				parsed, err := test.VerifParseDatumC26([]byte(doc))
+				n++
+				if err != nil {
+					r.Violate("same-name-different-class:parse-error", map[string]any{"doc": doc}, err.Error())
+					continue
+				}
+				agg := core.TestSuite{}
+				agg.Add(parsed.TestCases...)
+				want := map[string]int{}
+				want[o1]++
+				want[o2]++
+				got := map[string]int{"pass": agg.Passes(), "fail": agg.Failures(), "error": agg.Errors(), "skip": agg.Skips()}
+				bad := agg.Tests() != 2
+				for _, o := range outcomes {
+					if got[o] != want[o] {
+						bad = true
+					}
+				}
+				if bad {
+					r.Violate("aggregate:same-method-name-in-two-classes:cases-merged", map[string]any{"doc": doc, "outcomes": []string{o1, o2}, "layout": layout},
+						fmt.Sprintf("two cases A.m (%s) and B.m (%s) aggregate to tests=%d pass=%d fail=%d error=%d skip=%d", o1, o2, agg.Tests(), got["pass"], got["fail"], got["error"], got["skip"]))
+				}
+			}
+		}
+	}
+	return n
 }
